@@ -64,6 +64,10 @@ S = {
     "c08-oversized-writer-skipped-but-acked": ("C08", "C08,C04",
         "three queued writers [leader, B, C] where B pushes the group over the size limit (>128 KiB behind a small leader) and C still fits",
         "concmon big batches (VID_BIG, >128 KiB values) were added for it"),
+    "c08-get-samples-has-imm-before-lock": ("C08", "C08,C01",
+        "a reader samples has_imm, then blocks on the DB mutex while the writer switches memtables: the get misses the frozen memtable (stale / not-found for an acknowledged write)", ""),
+    "c08-deletion-marker-dropped-despite-snapshot": ("C08", "C08,C06,C01",
+        "key flushed, snapshot taken by another thread, delete acknowledged, compaction to the base level while the snapshot lives: marker dropped, old value resurrected", ""),
     "c09-manual-compaction-forgotten-on-rearm": ("C09", "C09",
         "manual compaction requested while an automatic background call is in flight and nothing else is pending when it ends", ""),
     "c09-broadcast-becomes-signal": ("C09", "C09",
